@@ -414,6 +414,13 @@ class TypedFunction:
             if ends_in_exit(st.body) and not st.orelse:
                 # if c: <exit>   followed by the rest
                 return self.wrap(b, f"if {c} then {self.branch(st.body)} else {cont()}")
+            if ends_in_exit(st.body):
+                # if c: <exit>  else/elif: <falls through>   followed by the rest: the rest follows the else part
+                yes = self.branch(st.body)
+                env0 = dict(self.env)
+                rest = cont()
+                self.env = env0
+                return self.wrap(b, f"if {c} then {yes} else {self.block(st.orelse, rest)}")
             # general: both branches fall through (a branch that raises has any type); the state they may change is passed on
             names = self.state_vars(st.body + st.orelse)
             tup, pat = self.tuple_of(names)
